@@ -783,6 +783,9 @@ def block_1014_check(sample_data):
             return True
         if len(sample_data) == 2028 and sample_data[-2:] == Block1014.PAD_CHAR * 2:
             return True
+        # files of 3 or more blocks: the sample is longer than two blocks, check the second block trailer
+        if len(sample_data) > 2028 and sample_data[2026:2028] == Block1014.PAD_CHAR * 2:
+            return True
     return False
 
 
